@@ -62,6 +62,62 @@ def running_failure_scenarios(tier, seed, tail):
     return out
 
 
+def failure_at_distribution_entry(tier, seed, tail):
+    """An auto-started application whose program cannot be placed (its rule names an instance that never came) and
+    whose running_failure_strategy is RESTART / SHUTDOWN: the Starter gives the request up INSIDE the entry action of
+    DISTRIBUTION, the forced FATAL event comes back synchronously and the ending state is requested from inside
+    set_state (re-entrant call). Also with the program really FATAL beforehand, and after a later join (second
+    DISTRIBUTION). The published states must stay on the documented graph and FINAL must be final."""
+    from recorder import Driver
+    out = []
+    for strategy in ('RESTART', 'SHUTDOWN'):
+        rules = ('<?xml version="1.0" encoding="UTF-8" standalone="no"?><root><application name="app">'
+                 '<start_sequence>1</start_sequence>'
+                 '<programs><program name="r"><identifiers>n3</identifiers><start_sequence>1</start_sequence>'
+                 f'<required>true</required><running_failure_strategy>{strategy}'
+                 '</running_failure_strategy></program></programs></application></root>')
+        cfg = cl.Config(n=3, sync=('TIMEOUT',))
+        traces, recs = [], {}
+        k = 0
+        for pre_fatal in (False, True):
+            for late in (False, True):
+                c = cl.make_cluster(cfg, programs=[{'name': 'r', 'groups': ['app']}], rules_xml=rules)
+                c.auto_orders = True
+                d = Driver(c)
+                try:
+                    d.boot('n1')
+                    d.boot('n2')
+                    if pre_fatal:
+                        # the program is started by hand during the synchronization and exits unexpectedly
+                        for n in ('n1', 'n2'):
+                            d.tick(n)
+                            d.drain()
+                        d.rpc('n2', 'startProcess', 'app:r', False, ns='supervisor')
+                        d.drain()
+                        for n in ('n1', 'n2'):
+                            d.tick(n)
+                            d.drain()
+                        d.env('exit', 'n2', 'app:r', 3)
+                        d.drain()
+                    for _ in range(14):
+                        for n in ('n1', 'n2'):
+                            if c.nodes[n].alive:
+                                d.tick(n)
+                                d.drain()
+                    if late and any(nd.alive for nd in c.nodes.values()):
+                        d.boot('n3')
+                        for _ in range(10):
+                            d.fair_round()
+                    cl.fair_tail(d, cfg, 4)
+                finally:
+                    c.close()
+                traces.append(cl.mon_trace(k, d.rec, cfg, False, True))
+                recs[k] = d.rec
+                k += 1
+        out.append((cfg, traces, recs))
+    return out
+
+
 def orders_after_master_loss(tier, seed, tail):
     """supvisors.restart / shutdown issued on a non-Master at every micro-step after the Master crashed (before and
     after the loss is noticed, during the new election): whatever the instant, the published states stay on the
@@ -129,4 +185,5 @@ def main(tier, seed, replay=None):
                 cl.Config(n=2, crash=1, restart=1, user=3, sync=('USER',))]
     return cc.run('C02', tier, seed, LABELS, [], e1, [], ['StepsC02'], sim, rnd,
                   n_beh=48 if q else 400, beh_depth=150, n_rnd=40 if q else 400, rnd_steps=250,
-                  e1_timeout=600 if q else 1500, extra_scenarios=[running_failure_scenarios, orders_after_master_loss])
+                  e1_timeout=600 if q else 1500, extra_scenarios=[running_failure_scenarios, orders_after_master_loss,
+                                   failure_at_distribution_entry])
